@@ -22,9 +22,35 @@ class Gen:
 
     def pick_node(self, bias_recent=True):
         n = len(self.nodes)
-        if bias_recent and self.rng.random() < 0.5:
-            return self.rng.randrange(max(0, n - 4), n)
-        return self.rng.randrange(n)
+        for _ in range(20):
+            if bias_recent and self.rng.random() < 0.5:
+                h = self.rng.randrange(max(0, n - 4), n)
+            else:
+                h = self.rng.randrange(n)
+            if not self.nodes[h].get("dropped"):
+                return h
+        live = [i for i in range(n) if not self.nodes[i].get("dropped")]
+        if live:
+            return self.rng.choice(live)
+        # everything was dropped: make a fresh constant to work with
+        self.op_const()
+        return len(self.nodes) - 1
+
+    def op_dropnode(self):
+        live = [i for i in range(len(self.nodes)) if not self.nodes[i].get("dropped")]
+        if len(live) <= 1:
+            return
+        h = self.rng.choice(live)
+        self.emit(f"dropnode {h}")
+        self.nodes[h]["dropped"] = True
+
+    def op_dropvar(self):
+        live = [i for i, v in enumerate(self.vars) if not v.get("dropped")]
+        if len(live) <= 1:
+            return
+        x = self.rng.choice(live)
+        self.emit(f"dropvar {x}")
+        self.vars[x]["dropped"] = True
 
     def effs(self, allow=True):
         out = []
@@ -152,8 +178,13 @@ class Gen:
             unused.append(nloc - 1)
             if self.rng.random() < 0.15:
                 body.append(f"cutoff l0.{nloc - 1} {self.cutoff()}")
+            if self.rng.random() < self.p["export_prob"]:
+                body.append(f"export l0.{nloc - 1}")
         # result: must consume all unused locals; if several remain, fold them together
-        if len(unused) > 1:
+        if unused and self.rng.random() < self.p["dangling_prob"]:
+            # leave some nodes unreachable from the result: they die when the closure returns
+            ret = f"l0.{self.rng.choice(unused)}" if self.rng.random() < 0.7 else self.operand(0, enclosing)
+        elif len(unused) > 1:
             body.append(f"fold 0 0 " + " ".join(f"l0.{i}" for i in unused))
             nloc += 1
             ret = f"l0.{nloc - 1}"
@@ -180,6 +211,13 @@ class Gen:
         h = self.pick_node()
         self.emit(f"observe {h}")
         self.obs.append(dict(node=h, handles=1))
+
+    def op_observeexport(self):
+        self.emit(f"observeexport {self.rng.randrange(8)}")
+        self.obs.append(dict(node=None, handles=1))
+
+    def op_mapexport(self):
+        self.new_node(f"mapexport {self.rng.choice(self.p['fids'])} {self.rng.randrange(8)}", "map")
 
     def live_obs(self):
         return [i for i, o in enumerate(self.obs) if o["handles"] > 0]
@@ -222,7 +260,10 @@ class Gen:
     def op_write(self):
         if not self.vars:
             return
-        x = self.rng.randrange(len(self.vars))
+        livev = [i for i, v in enumerate(self.vars) if not v.get("dropped")]
+        if not livev:
+            return
+        x = self.rng.choice(livev)
         if self.vars[x]["pair"]:
             self.emit(f"setpair {x} {self.rng.randrange(4)} {self.rng.randrange(10, 14)}")
             return
@@ -267,7 +308,7 @@ class Gen:
 
 DEFAULT_PROFILE = dict(
     weights=dict(var=2, const=1, map=8, mapref=2, mapold=2, fold=2, zip=1, dependon=1, bind=4, cutoff=2,
-                 observe=5, obs_misc=8, write=9, stabilise=8, misc=1),
+                 observe=5, obs_misc=8, write=9, stabilise=8, misc=1, observeexport=0, mapexport=0, dropnode=0, dropvar=0),
     arities=[1, 1, 1, 2, 2, 3, 4, 5, 6],
     fids=[0, 1, 2, 3, 4, 5, 6, 8, 9],
     wo_fids=[0, 1, 2],
@@ -276,12 +317,26 @@ DEFAULT_PROFILE = dict(
     obs_ops=["clone", "drop", "drop", "disallow", "read", "read", "subscribe", "subscribe", "unsubscribe", "stateunsub"],
     write_ops=["set", "set", "set", "update", "modify", "replace", "replacewith", "get"],
     eff_kinds=["set", "update", "modify", "replace", "replacewith", "get", "read"],
-    eff_prob=0.0, eff_in_templates=False, eff_in_handlers=False,
+    eff_prob=0.0, eff_in_templates=False, eff_in_handlers=False, export_prob=0.0, dangling_prob=0.0,
     pair_prob=0.2, max_bind_depth=2, read_after_stabilise=0.7,
 )
 
 
+PROFILES = {
+    "basic": {},
+    "drops": dict(export_prob=0.25, dangling_prob=0.3,
+                  weights=dict(var=3, const=1, map=6, mapref=2, mapold=2, fold=2, zip=1, dependon=1, bind=7,
+                               cutoff=1, observe=5, obs_misc=8, write=10, stabilise=9, misc=1,
+                               observeexport=2, mapexport=2, dropnode=4, dropvar=1)),
+    "exports": dict(export_prob=0.3, weights=dict(var=2, const=1, map=6, mapref=2, mapold=2, fold=2, zip=1, dependon=1, bind=7,
+                                                   cutoff=2, observe=4, obs_misc=8, write=12, stabilise=9, misc=1,
+                                                   observeexport=3, mapexport=3)),
+}
+
+
 def history(seed, n_ops=25, profile=None):
+    if isinstance(profile, str):
+        profile = PROFILES[profile]
     rng = random.Random(seed)
     g = Gen(rng, profile)
     return g.run(n_ops)
